@@ -232,6 +232,9 @@ type unit struct {
 	tainted bool
 	// parameters of top whose referent is inserted into the table of a root
 	inserted map[*ssa.Parameter]Root
+	// per-component taints of multi-value call results (record, err := n.lookup(name)):
+	// Extract #i takes exactly what the callee returns in position i
+	tuples map[*ssa.Call][]TSet
 }
 
 func collectAnon(fn *ssa.Function, out *[]*ssa.Function) {
@@ -511,7 +514,7 @@ func (u *unit) origins1(v ssa.Value, out *origins, seen map[ssa.Value]bool) {
 func (e *Engine) newUnit(top *ssa.Function, params []TSet, key string) *unit {
 	u := &unit{e: e, top: top, inUnit: map[*ssa.Function]bool{}, val: map[ssa.Value]TSet{}, cells: map[ssa.Value]TSet{},
 		fvBind: map[*ssa.FreeVar]ssa.Value{}, cellFVs: map[ssa.Value][]*ssa.FreeVar{}, ret: map[*ssa.Function][]TSet{},
-		key: key, canonM: map[ssa.Value]ssa.Value{}, inserted: map[*ssa.Parameter]Root{}}
+		key: key, canonM: map[ssa.Value]ssa.Value{}, inserted: map[*ssa.Parameter]Root{}, tuples: map[*ssa.Call][]TSet{}}
 	collectAnon(top, &u.fns)
 	for _, f := range u.fns {
 		u.inUnit[f] = true
@@ -607,7 +610,29 @@ func (u *unit) step(f *ssa.Function, in ssa.Instruction) {
 		if i.Op != token.MUL {
 			return
 		}
+		// rec := *record; … rec.Owners …: a field loaded from a LOCAL copy of a table record.
+		// The copy's reference-typed fields still alias the table (KRef of that field); its
+		// scalar fields are plain values. Without this the load would carry the opaque
+		// "record copy inside a container" taint, which even a cloning append cannot shed.
+		localCopy := map[Taint]bool{}
+		if fa, isFA := i.X.(*ssa.FieldAddr); isFA {
+			if cell, isCell := u.resolve(fa.X).(*ssa.Alloc); isCell && sp.isRecord(derefT(cell.Type())) {
+				if st, _ := derefT(cell.Type()).Underlying().(*types.Struct); st != nil && fa.Field < st.NumFields() {
+					for t := range u.cells[cell] {
+						if t.K == KRecVal {
+							localCopy[t] = true
+							if refCarrier(i.Type()) {
+								out.add(Taint{K: KRef, Root: t.Root, F: st.Field(fa.Field)})
+							}
+						}
+					}
+				}
+			}
+		}
 		for t := range u.get(i.X) {
+			if t.Boxed && localCopy[t] {
+				continue
+			}
 			switch {
 			case t.Boxed:
 				sp.unboxFor(i.Type(), t, out)
@@ -639,6 +664,14 @@ func (u *unit) step(f *ssa.Function, in ssa.Instruction) {
 			}
 		}
 	case *ssa.Extract:
+		if call, isCall := i.Tuple.(*ssa.Call); isCall {
+			if comps, has := u.tuples[call]; has {
+				if i.Index < len(comps) {
+					out.addAll(comps[i.Index])
+				}
+				break
+			}
+		}
 		for t := range u.get(i.Tuple) {
 			if t.Boxed {
 				sp.unboxFor(i.Type(), t, out)
@@ -934,9 +967,22 @@ func (u *unit) callResult(call *ssa.Call, rets []TSet, out TSet, back map[Root]R
 		out.addAll(conv(rets[0]))
 		return
 	}
-	// multi-value: the tuple carries the boxed union; Extract unboxes by type
-	for _, r := range rets {
-		out.addAll(boxed(conv(r)))
+	// multi-value: the tuple carries the boxed union (for consumers other than Extract);
+	// Extract takes the component of its own index
+	comps := u.tuples[call]
+	if comps == nil {
+		comps = make([]TSet, len(rets))
+		for k := range comps {
+			comps[k] = TSet{}
+		}
+		u.tuples[call] = comps
+	}
+	for k, r := range rets {
+		c := conv(r)
+		if k < len(comps) && comps[k].addAll(c) {
+			u.changed = true
+		}
+		out.addAll(boxed(c))
 	}
 }
 
